@@ -291,3 +291,26 @@ def reachable_fns(P, roots, stop=()):
 def positive_control(ctx, rule, what, found):
     """Zero-count rules must fire on the fixture crate, otherwise the check is broken."""
     return ctx.ob(rule + ".posctl", what, found > 0, "positive control: the rule matched %d site(s) in fixtures/posctl (must be > 0)" % found)
+
+
+def check_tag_table(ctx, P, rule="E1"):
+    """Exhaustive: all tag/salt constants pairwise distinct; the 8 ciphersuite tags equal the IETF strings."""
+    from itertools import combinations
+
+    pinned = spec("pinned.json")
+    consts = collect_constants(P)
+    tags = [c for c in consts if c["name"] in ("DST", "SIG_DST", "POP_DST", "ENC_DST") or c["name"].endswith("SALT")]
+    ctx.floor(rule, "tag/salt constants", len(tags), 15)
+    for a, b in combinations(tags, 2):
+        ctx.ob(rule + ".distinct", "%s<>%s" % (a["id"], b["id"]), a["hex"] != b["hex"], "constants `%s` and `%s` are %s" % (a["id"], b["id"], "distinct" if a["hex"] != b["hex"] else "EQUAL (%r)" % a["str"]))
+    ctx.extra["exhaustive"] = True
+    ctx.extra["tags_enumerated"] = {c["id"]: c["str"] for c in tags}
+    for key, want in pinned["ietf_tags"].items():
+        impl, item = key.split("/")
+        tr, name = item.split("::")
+        got = [c for c in tags if c["impl"] == impl and c["trait"] == tr and c["name"] == name]
+        if not got:
+            ctx.ob(rule + ".ietf", key, False, "ciphersuite tag `%s` not found (missing anchor)" % key)
+            continue
+        ctx.ob(rule + ".ietf", key, got[0]["str"] == want, "`%s` = %r, IETF draft says %r" % (key, got[0]["str"], want), sample={"tag": key, "value": got[0]["str"]})
+    return tags
